@@ -174,7 +174,8 @@ HSend(c0, e) ==
            q == ExpectedQuery(c)
            down == c.mayDown /\ c.ver > 0 /\ e.v = c.ver - 1
            c1 == [c EXCEPT !.pc = "resp1", !.now = e.now, !.ver = IF down THEN e.v ELSE c.ver, !.mayDown = FALSE,
-                           !.lastq = q, !.owed = None, !.expired = FALSE, !.snap = AltOf(c)]
+                           !.lastq = q, !.owed = None, !.expired = FALSE,
+                           !.snap = IF Has(e, "my") THEN AltOf(c) ELSE c.snap]    \* recorded executions only (the model checker's events carry no observations)
        IN Res(c1, Chk({<<"ENV", c.pc \in {"query", "poll"}>>,
                        <<"C05", e.t = q.t>>,
                        <<"C05", (e.t = "serial_query" /\ q.t = "serial_query") => (e.sess = q.sess /\ e.sn = q.sn)>>,
